@@ -1,11 +1,13 @@
-(* Correspondence for C04: a case is an operation history over view/batch handles together with what the
-   real mapdb (+ flushkv/debug wrappers) returned for every operation and the final debug-callback log. *)
+(* Correspondence for C04: a case is an operation history over view/batch handles (an operation may be an
+   Iterate/IterateKeys whose consumer calls back into the store: HIterRe) together with what the real mapdb
+   (+ flushkv/debug wrappers) returned for every operation - the call's own result followed by the results of
+   the calls its consumer made, in the order they returned - and the final debug-callback log. *)
 From Coq Require Import NArith List Bool.
 From Verif.C04_KV Require Import Model.
 Import ListNotations.
 Open Scope N_scope.
 
-Record case := mk { c_hist : list op; c_outs : list out; c_log : list logent (* oldest first *); c_nfl : nat }.
+Record case := mk { c_hist : list hop; c_outs : list (list out); c_log : list logent (* oldest first *); c_nfl : nat }.
 
 Fixpoint list_eqb {A} (eqb : A -> A -> bool) (a b : list A) : bool :=
   match a, b with
@@ -31,8 +33,8 @@ Definition logent_eqb (a b : logent) : bool :=
   let '(i1, c1, p1) := a in let '(i2, c2, p2) := b in (i1 =? i2) && (c1 =? c2) && list_eqb beqb p1 p2.
 
 Definition agree (c : case) : bool :=
-  let '(w, outs) := run init (c_hist c) in
-  list_eqb out_eqb outs (c_outs c) && list_eqb logent_eqb (rev (log (w_st w))) (c_log c) && Nat.eqb (nfl (w_st w)) (c_nfl c).
+  let '(w, outs) := hrun init (c_hist c) in
+  list_eqb (list_eqb out_eqb) outs (c_outs c) && list_eqb logent_eqb (rev (log (w_st w))) (c_log c) && Nat.eqb (nfl (w_st w)) (c_nfl c).
 
 Fixpoint mismatches_from (i : nat) (cs : list case) : list nat :=
   match cs with
